@@ -30,6 +30,10 @@ PLANS = {
     rp=[("chain minimal", "chain", BASE + ["Taint", "ToggleNoCache", "Perturb"], ["copy", "const", "fail"], ["minimal"], ["ALL", "c", "b"], 9, 14, 200, False),
         ("alias minimal", "alias", BASE + ["Retarget", "Taint"], ["copy", "const"], ["minimal"], ["ALL", "c"], 9, 10, 150, False),
         ("diamond minimal", "diamond", BASE + ["Taint", "Perturb"], ["copy", "const"], ["minimal"], ["ALL", "d"], 9, 10, 150, False)]),
+ "C03": dict(
+    ex=[],
+    rp=[("diamond all/minimal, 1..4 workers", "diamond", BASE + ["Taint", "ToggleNoCache", "Perturb"], ["copy", "const", "fail"], ["all", "minimal"], ["ALL", "d"], 9, 16, 200, False),
+        ("alias all/minimal", "alias", BASE + ["Retarget", "ToggleNoCache"], ["copy", "const"], ["all", "minimal"], ["ALL", "c"], 9, 8, 100, False)]),
  "C05": dict(
     ex=[("chain", "chain", BASE, ["copy", "fail", "omit"], ["all"], ["ALL"], 4, 5, ["TypeOK", "CleanEq", "SuccessImpliesPost"])],
     rp=[("diamond failures", "diamond", BASE, ["copy", "fail", "omit", "slow", "const"], ["all"], ["ALL", "d"], 9, 12, 150, False),
